@@ -172,6 +172,7 @@ type scope struct {
 	locals map[types.Object]*E
 	objs   map[types.Object]*object
 	ret    *E
+	rets   []*E // multi-value return of an inlined helper (mulAdd64 …)
 	retObj *object
 	done   bool
 }
@@ -505,6 +506,73 @@ func (k *kernel) call(sc *scope, x *ast.CallExpr) *E {
 	return k.inline(sc, fd, recvObj, x)
 }
 
+// callMulti: calls with two results.  math/bits intrinsics are given their documented meaning with
+// 128-bit intermediate values, so that the ideal semantics is exact:
+//   hi, lo = bits.Mul64(a, b)      p = a*b;        hi = p >> 64, lo = p mod 2^64
+//   s, c   = bits.Add64(a, b, ci)  t = a + b + ci; s = t mod 2^64, c = t >> 64
+func (k *kernel) callMulti(sc *scope, x *ast.CallExpr) []*E {
+	if sel, ok := x.Fun.(*ast.SelectorExpr); ok {
+		if id, ok := sel.X.(*ast.Ident); ok {
+			if pn, ok := k.p.info.Uses[id].(*types.PkgName); ok && pn.Imported().Path() == "math/bits" {
+				switch sel.Sel.Name {
+				case "Mul64":
+					if len(x.Args) != 2 {
+						k.fail(x, "bits.Mul64 arity")
+						return nil
+					}
+					p := k.emit(&E{op: "mul", w: 128, a: k.expr(sc, x.Args[0]), b: k.expr(sc, x.Args[1])})
+					return []*E{k.emit(&E{op: "shr", a: p, k: 64}), k.emit(&E{op: "conv", w: 64, a: p})}
+				case "Add64":
+					if len(x.Args) != 3 {
+						k.fail(x, "bits.Add64 arity")
+						return nil
+					}
+					t := k.emit(&E{op: "add", w: 128, a: &E{op: "add", w: 128, a: k.expr(sc, x.Args[0]), b: k.expr(sc, x.Args[1])}, b: k.expr(sc, x.Args[2])})
+					return []*E{k.emit(&E{op: "conv", w: 64, a: t}), k.emit(&E{op: "shr", a: t, k: 64})}
+				}
+				k.fail(x, "math/bits.%s outside the T1 subset", sel.Sel.Name)
+				return nil
+			}
+		}
+	}
+	id, ok := x.Fun.(*ast.Ident)
+	if !ok {
+		k.fail(x, "multi-value call of %T", x.Fun)
+		return nil
+	}
+	fd := k.p.funcs[id.Name]
+	if fd == nil || fd.Recv != nil {
+		k.fail(x, "multi-value call to a function outside the package subset")
+		return nil
+	}
+	ns := &scope{locals: map[types.Object]*E{}, objs: map[types.Object]*object{}}
+	ai := 0
+	for _, fld := range fd.Type.Params.List {
+		for _, nm := range fld.Names {
+			if ai >= len(x.Args) {
+				k.fail(x, "arity")
+				return nil
+			}
+			pobj := k.p.info.Defs[nm]
+			if widthOf(pobj.Type()) == 0 {
+				k.fail(x, "parameter %s of unsupported type %s", nm.Name, pobj.Type())
+				return nil
+			}
+			ns.locals[pobj] = k.emit(k.expr(sc, x.Args[ai]))
+			ai++
+		}
+	}
+	if fd.Type.Results != nil {
+		for _, fld := range fd.Type.Results.List {
+			for _, nm := range fld.Names {
+				ns.locals[k.p.info.Defs[nm]] = konst(0)
+			}
+		}
+	}
+	k.block(ns, fd.Body.List)
+	return ns.rets
+}
+
 func (k *kernel) inline(sc *scope, fd *ast.FuncDecl, recvObj *object, x *ast.CallExpr) *E {
 	ns := &scope{locals: map[types.Object]*E{}, objs: map[types.Object]*object{}}
 	if fd.Recv != nil && len(fd.Recv.List[0].Names) > 0 {
@@ -623,6 +691,32 @@ func (k *kernel) block(sc *scope, stmts []ast.Stmt) {
 		k.clock++
 		switch st := s.(type) {
 		case *ast.AssignStmt:
+			if len(st.Lhs) > 1 && (st.Tok == token.ASSIGN || st.Tok == token.DEFINE) {
+				// a, b = f(...)  (bits.Mul64 / bits.Add64 / a two-result helper)  or  a, b, c = x, y, z
+				var vals []*E
+				if len(st.Rhs) == 1 {
+					call, ok := st.Rhs[0].(*ast.CallExpr)
+					if !ok {
+						k.fail(st, "multi-assignment from a non-call")
+						return
+					}
+					vals = k.callMulti(sc, call)
+				} else if len(st.Rhs) == len(st.Lhs) {
+					for _, r := range st.Rhs {
+						vals = append(vals, k.emit(k.expr(sc, r)))
+					}
+				}
+				if len(vals) != len(st.Lhs) {
+					if k.err == nil {
+						k.fail(st, "multi-assignment arity")
+					}
+					return
+				}
+				for i, l := range st.Lhs {
+					k.assign(sc, l, vals[i], st.Tok == token.DEFINE)
+				}
+				continue
+			}
 			if len(st.Lhs) != 1 || len(st.Rhs) != 1 {
 				k.fail(st, "multi-assignment")
 				return
@@ -730,7 +824,13 @@ func (k *kernel) block(sc *scope, stmts []ast.Stmt) {
 				return
 			}
 			if len(st.Results) > 1 {
-				k.fail(st, "multiple results")
+				for _, r := range st.Results {
+					if widthOf(k.p.info.Types[r].Type) == 0 {
+						k.fail(st, "multiple results of non-integer type")
+						return
+					}
+					sc.rets = append(sc.rets, k.emit(k.expr(sc, r)))
+				}
 				return
 			}
 			r := st.Results[0]
@@ -818,6 +918,14 @@ func translateKernel(p *Pkg, key string, prim bool, leanName string) (*kernel, e
 				k.outNames = append(k.outNames, fmt.Sprintf("%s[%d]", o.name, i))
 				k.sigOut = append(k.sigOut, fmt.Sprintf("o%d:%d", oi, i))
 			}
+		}
+	}
+	if sc.retObj != nil && !sc.retObj.isInput && len(sc.retObj.slots) > 0 {
+		// a result object built locally and returned by value (mul512Rsh320Round)
+		for i, s := range sc.retObj.slots {
+			k.outs = append(k.outs, s)
+			k.outNames = append(k.outNames, fmt.Sprintf("result[%d]", i))
+			k.sigOut = append(k.sigOut, fmt.Sprintf("r:%d", i))
 		}
 	}
 	if sc.ret != nil {
@@ -918,6 +1026,8 @@ var scalarKernels = []kspec{
 	{"ModNScalar.Add2", "Scalar_Add2", true}, {"ModNScalar.reduce385", "Scalar_reduce385", true},
 	{"ModNScalar.reduce512", "Scalar_reduce512", true}, {"ModNScalar.Mul2", "Scalar_Mul2", true},
 	{"ModNScalar.NegateVal", "Scalar_NegateVal", true}, {"ModNScalar.IsOverHalfOrder", "Scalar_IsOverHalfOrder", true},
+	// curve.go: the 256x256 -> 512-bit product, shifted right by 320 with rounding, that splitK estimates with
+	{"mul512Rsh320Round", "Scalar_mul512Rsh320Round", true},
 }
 
 type kernelSig struct {
